@@ -1,10 +1,13 @@
 import AlgoVerif.Proofs.C10Main
 import AlgoVerif.Proofs.C10Term
+import AlgoVerif.Proofs.C10TableEq
 /-!
 # C10 — FIRST, FOLLOW and nullable are exact; the LL(1) verdict matches the predictive table
 
 Model: `Model/C10.lean` (the three fixpoint loops of `grammar/cfg.go` with their `updated` logic, the
-FIRST closure for strings, `IsLL1`'s pairwise conditions, the cells of `predictive.BuildParsingTable`).
+FIRST closure for strings, `IsLL1`'s pairwise conditions, `predictive.BuildParsingTable` as the sequence of
+`addProduction` / `setSync` calls the code makes — `buildTable` — whose cells are the lists `cell g fi fo A a`
+and whose `Conflicts()` is `conflicts g fi fo`, see `C10_table_built_is_cells`).
 Spec: `Spec/C10.lean` (`Derives` of `Model/GrammarCore.lean`; sentential forms).
 
 Every statement is for ALL grammars (`T`, `N` arbitrary types with decidable equality), ALL symbol
@@ -67,6 +70,23 @@ theorem C10_fixpoints_terminate (g : Grammar T N) (hv : validB g = true) (o₁ o
     (h₁ : o₁.Fair) (h₂ : o₂.Fair) :
     (∃ R, nullable g o₁ = .ok R) ∧ (∃ an, analyse g o₁ o₂ = .ok an) :=
   ⟨nullable_terminates hv h₁, analyse_terminates hv h₁ h₂⟩
+
+/-- **The table built call by call has the cells the theorems below talk about.**  For a duplicate-free
+production list (what `G.Productions` is), whatever the order of the rows: every cell of `buildTable` is the
+list `cell g fi fo A a` — the productions that belong into `M[A,a]`, each once, in the order of the
+production list — and `Conflicts()` over the declared rows and columns is `conflicts g fi fo`; emptiness of
+`Conflicts()` does not depend on the order in which rows and columns are visited. -/
+theorem C10_table_built_is_cells (g : Grammar T N) (hnd : g.prods.Nodup) (fi : List (Sym T N) → TE T)
+    (fo : N → TEnd T) (rows : List N) :
+    tcell (buildTable fi fo g.prods rows) = cell g fi fo ∧
+    tconflicts (buildTable fi fo g.prods rows) g.nonterms (columns g) = conflicts g fi fo ∧
+    ∀ (rows' : List N) (cols' : List (Option T)), (∀ A, A ∈ g.nonterms ↔ A ∈ rows') →
+      (∀ c, c ∈ columns g ↔ c ∈ cols') →
+      (tconflicts (buildTable fi fo g.prods rows) rows' cols' = [] ↔ conflicts g fi fo = []) := by
+  refine ⟨tcell_eq_cell hnd fi fo rows, tconflicts_eq hnd fi fo rows, ?_⟩
+  intro rows' cols' hr hc
+  rw [← tconflicts_eq hnd fi fo rows]
+  exact (tconflicts_nil_iff _ hr hc).symm
 
 /-- A conflict in the predictive parsing table (built from one run of FIRST/FOLLOW) always comes with an
 `IsLL1` error (which runs FIRST/FOLLOW again, in another order). -/
